@@ -109,6 +109,7 @@ def run(ctx):
     import time
     ctx.laps, ctx.lap0 = [], time.time()
     q = ctx.quick
+    vacuous = []        # needed spec branches that no recorded event matched (judged at the end, see _vacuity)
     assumptions = [
         "session states are valid encodings (secret of 1..255 bytes); they are built through MakeClientSessionState + setters + Extra/EarlyData",
         "ticket keys are SHA-256 derived 32-byte strings per key id; automatic keys come from the library's own randomness",
@@ -157,7 +158,7 @@ def run(ctx):
     ctx.traces += len(per)
     for a in NEED:
         if cov.get(a, 0) == 0:
-            raise vlib.Machinery("vacuity: trace action %s never matched a recorded event" % a)
+            vacuous.append("vacuity: trace action %s never matched a recorded event" % a)
 
     _lap(ctx, "ticket validation")
     # ------------------------------------------------------------------ 3. forged client sessions
@@ -171,7 +172,7 @@ def run(ctx):
     ctx.traces += len(fper)
     for a in NEED_FORGE:
         if fcov.get(a, 0) == 0:
-            raise vlib.Machinery("vacuity: trace action %s never matched a recorded handshake" % a)
+            vacuous.append("vacuity: trace action %s never matched a recorded handshake" % a)
     cbyid = {c["id"]: c for c in cases}
 
     _lap(ctx, "forge grid, handshakes, validation")
@@ -214,6 +215,13 @@ def run(ctx):
             ctx.finding(s, what, {"case": c, "event": {"p": _short(e["p"]), "o": _short(e["o"])}, "rejection": rej1[c["id"]]})
 
     _lap(ctx, "reproduction")
+    if vacuous:
+        # a needed branch that never matched is a machinery problem - unless the implementation's deviation is the reason
+        # (then the rejections above are the finding and the unmatched branches are only noted)
+        if not ctx.findings:
+            raise vlib.Machinery("; ".join(vacuous))
+        for v in vacuous:
+            ctx.note(v + " (rejections reported instead)")
     canaries = _canaries(ctx, per, set(rejected), fper, set(frejected))
     _lap(ctx, "canaries")
     print("laps:", ctx.laps)
